@@ -153,7 +153,15 @@ def run_property(pid, spec, tier, seed):
                     verdict = 'HOLDS-WITHIN-BOUNDS'
                 elif st == 'refuted':
                     cex = r.get('cex')
-                    if cex is None:
+                    if cex is None and o['kind'] in ('smt', 'validate'):
+                        # a lemma over the current source text refuted by both solvers, or a concrete run against the real
+                        # code that failed: the obligation itself is the replay (./check run <PROP> --only <name>)
+                        rep = {'tag': '%s:%s' % (pid, o['name']), 'exception': None,
+                               'trace': [str(m)[:2000] for m in r.get('messages', [])] + [json.dumps(r.get('detail'), default=str)[:4000]]}
+                        path = save_replay(pid, o, {'args': [tier], 'kwargs': {}, 'rerun': './check run %s --only %s' % (pid, o['name'])}, rep, tier)
+                        verdict = 'VIOLATION'
+                        violations.append((o, path, rep))
+                    elif cex is None:
                         verdict = 'HARNESS-ERROR'
                         harness_errors.append((o, 'counterexample could not be parsed: %s' % r.get('cex_text')))
                     else:
